@@ -6,6 +6,8 @@ from hypothesis import strategies as st
 from vlib import interleaved_model as im
 from vlib.core import Case, Facet, Refused, Violation
 
+# thorough-tier budgets of every facet are multiplied by this factor (sized for ~5-8 min on 16 cores)
+THOROUGH_SCALE = 5
 LEVEL = "exploration"
 RULE = ("specs = C04 geometry + 0-4 interleaved configs (non-empty subset of every_n_epochs/updates/samples, dataset "
         "size 0-7, own batch size, permuted/partial sampler), incl. zero budgets; facet 'stream' compares list(sampler) and "
